@@ -192,6 +192,57 @@ impl Stats {
     }
 }
 
+impl Stats {
+    /// Serialise for transport from a worker subprocess (the distinct set is sent as a count).
+    pub fn to_json(&self) -> Value {
+        json!({
+            "evals": self.evals, "states": self.states, "transitions": self.transitions, "traces": self.traces,
+            "classes": self.classes, "distinct": self.distinct.iter().collect::<Vec<_>>(), "samples": self.samples,
+            "max_depth": self.max_depth, "extra": self.extra,
+            "viols": self.viols.iter().map(|v| json!({"sig": v.sig, "detail": v.detail, "case": v.case, "order": v.order})).collect::<Vec<_>>(),
+        })
+    }
+    pub fn from_json(v: &Value) -> Stats {
+        let mut s = Stats::default();
+        s.evals = v["evals"].as_u64().unwrap_or(0);
+        s.states = v["states"].as_u64().unwrap_or(0);
+        s.transitions = v["transitions"].as_u64().unwrap_or(0);
+        s.traces = v["traces"].as_u64().unwrap_or(0);
+        s.max_depth = v["max_depth"].as_u64().unwrap_or(0);
+        if let Some(m) = v["classes"].as_object() {
+            for (k, x) in m {
+                s.classes.insert(k.clone(), x.as_u64().unwrap_or(0));
+            }
+        }
+        if let Some(m) = v["extra"].as_object() {
+            for (k, x) in m {
+                s.extra.insert(k.clone(), x.as_u64().unwrap_or(0));
+            }
+        }
+        if let Some(a) = v["distinct"].as_array() {
+            for x in a {
+                if let Some(h) = x.as_u64() {
+                    s.distinct.insert(h);
+                }
+            }
+        }
+        if let Some(a) = v["samples"].as_array() {
+            s.samples = a.clone();
+        }
+        if let Some(a) = v["viols"].as_array() {
+            for x in a {
+                s.viols.push(Viol {
+                    sig: x["sig"].as_str().unwrap_or("").to_string(),
+                    detail: x["detail"].as_str().unwrap_or("").to_string(),
+                    case: x["case"].clone(),
+                    order: x["order"].as_u64().unwrap_or(0),
+                });
+            }
+        }
+        s
+    }
+}
+
 pub fn fnv(b: &[u8]) -> u64 {
     let mut h: u64 = 0xcbf29ce484222325;
     for &x in b {
